@@ -1377,6 +1377,20 @@ impl Prop for C14 {
     fn enumerate(tier: Tier, emit: &mut dyn FnMut(GridCase)) {
         let mut emit_inner = emit_cells(emit);
         let emit: &mut dyn FnMut(GridCase) = &mut emit_inner;
+        // rectangles wider than 512 / 1024 columns moved in every direction with overlapping rows
+        for recv in [Recv::owned(), Recv::view([1, 1, 2, 1])] {
+            for w in [513u64, 600, 1024, 1100] {
+                for dx in [-300i64, -17, -1, 0, 1, 17, 300] {
+                    for dy in [-1i64, 0, 1] {
+                        for h in [2u64, 3] {
+                            let (x0, y0) = (320u64, 1u64);
+                            let op = GOp::CopyWithin { src: [x0, y0, x0 + w, y0 + h], dest: [(x0 as i64 + dx) as u64, (y0 as i64 + dy) as u64] };
+                            emit(GridCase { cell: CellKind::Kc, cols: 0, rows: 5, recv, keyseed: 31, alphabet: 4, line_keys: vec![], op, big: (1800, 0), more: vec![], spare: 0, wide_alphabet: 0 });
+                        }
+                    }
+                }
+            }
+        }
         let n = if tier == Tier::Quick { 4u8 } else { 5u8 };
         for recv in [Recv::owned(), Recv::view([1, 1, 2, 1]), Recv::thin()] {
             for cols in 0..=n {
